@@ -175,6 +175,11 @@ def sharing(ctx, d1):
             d1.ok('Stream.unlink', 'caches reset (property memo and mass/volume views)', f)
         else:
             d1.fail('Stream.unlink', 'contract-caches', 'unlink does not reset the caches', f, f.node)
+    t_ = ' '.join(ast.unparse(f.node).split())
+    if "if hasattr(self, '_streams'): self._streams.clear()" in t_:
+        d1.ok('Stream.unlink', 'per-phase sub-streams (which share the old data and thermal condition) are dropped', f)
+    else:
+        d1.fail('Stream.unlink', 'contract-substreams', 'unlink leaves the per-phase sub-streams attached to the former partner\'s data / thermal condition', f, f.node)
     locked = [n_ for n_ in walk_no_nested(f.node) if isinstance(n_, ast.Raise)]
     if locked:
         d1.ok('Stream.unlink', 'a locked phase (phase view) refuses to unlink', f, locked[0])
